@@ -1,7 +1,7 @@
 #!/bin/sh
 # usage: eval_one.sh <WT> <round-tag> <ID> [more check ids]   - confirm and evaluate one seeded change in its own scratch worktree
 WT=$1; R=$2; ID=$3; shift 3
-E=/tmp/evalrepo_$ID
+E=/tmp/evalrepo_${R}_$ID
 [ -d "$E" ] || git -C /repo worktree add -q --detach "$E" HEAD
 SEED_EVAL_REPO=$E python3 /verif/bin/seed_eval.py $WT/$ID $ID-$R $ID "$@" 2>&1 | grep -v -i conda
 git -C /repo worktree remove --force "$E"
